@@ -151,12 +151,61 @@ pub fn dump_geo() {
         let pts: Vec<String> = ring.iter().map(|p| format!("{},{}", bits(p.longitude()), bits(p.latitude()))).collect();
         println!("geo {:x} c={},{} p={} back={:x}", x, bits(c.longitude()), bits(c.latitude()), pts.join(";"), back);
     }
+    // point lookups: `pt <lon> <lat> <r> <id>`; consecutive lines alternate between the two sides of a seam
+    // (100 m .. 5 km off it), so a check that replays the file in order also exercises history-dependent shortcuts
+    let ax = axes();
+    for i in 0..12 {
+        for j in (i + 1)..12 {
+            if (angle(ax[i], ax[j]) - NEIGHBOUR_ANGLE).abs() > 1e-6 {
+                continue;
+            }
+            let m = normalize(add(ax[i], ax[j]));
+            let across = normalize(sub(ax[j], ax[i]));
+            let along = normalize(cross(m, across));
+            for al in [0.0f64, 5.0, -11.0] {
+                let a = al.to_radians();
+                let q = normalize(add(scale(m, a.cos()), scale(along, a.sin())));
+                for off in [0.001f64, 0.003, 0.01, 0.05] {
+                    for r in [0, 1, 15, 29] {
+                        for sgn in [-1.0, 1.0] {
+                            let o = (off * sgn).to_radians();
+                            let p = normalize(add(scale(q, o.cos()), scale(across, o.sin())));
+                            let (t, ph) = to_theta_phi(p);
+                            let ll = to_lon_lat(Spherical::new(Radians::new_unchecked(t), Radians::new_unchecked(ph)));
+                            if ll.latitude().abs() > 89.5 {
+                                continue;
+                            }
+                            let id = a5::lonlat_to_cell(ll, r).unwrap();
+                            println!("pt {} {} {} {:x}", bits(ll.longitude()), bits(ll.latitude()), r, id);
+                        }
+                    }
+                }
+            }
+        }
+    }
+    for k in 0..2000 {
+        let lon = (rng.below(3_600_000) as f64) / 10_000.0 - 180.0;
+        let lat = (rng.below(1_790_001) as f64) / 10_000.0 - 89.5;
+        let r = if k % 2 == 0 { 22 + rng.below(8) as i32 } else { rng.below(30) as i32 };
+        let id = a5::lonlat_to_cell(LonLat::new(lon, lat), r).unwrap();
+        println!("pt {} {} {} {:x}", bits(lon), bits(lat), r, id);
+    }
 }
 
 /// C06, float pipeline (BOUNDED: the sample of the frozen dump): this tree reproduces the reference release's
 /// centre and corners of a cell to 1e-9 degrees and maps the reference centre back to the same ID
 fn reference_geo(line: &str) -> Result<(), String> {
     let t: Vec<&str> = line.split(' ').collect();
+    if t.len() == 5 && t[0] == "pt" {
+        let (lon, lat) = (unbits(t[1]), unbits(t[2]));
+        let r: i32 = t[3].parse().unwrap();
+        let want = u64::from_str_radix(t[4], 16).unwrap();
+        let got = guard(|| a5::lonlat_to_cell(LonLat::new(lon, lat), r))?.map_err(|e| format!("lonlat_to_cell(({}, {}), {}): {}", lon, lat, r, e))?;
+        if got != want {
+            return Err(format!("lonlat_to_cell(({}, {}), {}) = {}, reference release: {}", lon, lat, r, hx(got), hx(want)));
+        }
+        return Ok(());
+    }
     if t.len() != 5 || t[0] != "geo" {
         return Err(format!("malformed reference line {:?}", line));
     }
@@ -204,9 +253,17 @@ fn reference_geo(line: &str) -> Result<(), String> {
 
 pub fn run_geo(op: &str, a: &[String]) -> Option<Result<(), String>> {
     Some(match op {
-        "reference_geo" => reference_geo(&a[0].replace('~', " ")),
+        // optional second argument: the line that precedes this one in the file; it is replayed first (result ignored) so
+        // that a witness that depends on the previous lookup reproduces when replayed on its own
+        "reference_geo" => {
+            if a.len() > 1 {
+                let _ = reference_geo(&a[1].replace('~', " "));
+            }
+            reference_geo(&a[0].replace('~', " "))
+        }
         "frame" => frame(),
-        "nearest_face" => nearest_face(pf(&a[0]), pf(&a[1])),
+        // two points = two consecutive lookups in this process (history: a cache keyed on the previous query would show)
+        "nearest_face" => nearest_face(pf(&a[0]), pf(&a[1])).and_then(|_| if a.len() >= 4 { nearest_face(pf(&a[2]), pf(&a[3])) } else { Ok(()) }),
         "boundary_geometry" => boundary_geometry(pu64(&a[0])),
         "cell_area_measured" => cell_area_measured(pu64(&a[0])),
         _ => return None,
@@ -462,10 +519,20 @@ pub fn generate_geo(op: &str, rng: &mut crate::ops::Rng, budget: u64, f: &mut dy
         "reference_geo" => {
             let path = std::env::var("A5_GEO_DUMP").unwrap_or("/verif/contracts/reference/geo_dump_v0.6.2.txt".to_string());
             if let Ok(txt) = std::fs::read_to_string(path) {
+                let mut prev: Option<String> = None;
                 for l in txt.lines() {
-                    if !l.is_empty() && !f(vec![l.replace(' ', "~")]) {
+                    if l.is_empty() {
+                        continue;
+                    }
+                    let cur = l.replace(' ', "~");
+                    let args = match (&prev, l.starts_with("pt ")) {
+                        (Some(p), true) => vec![cur.clone(), p.clone()],
+                        _ => vec![cur.clone()],
+                    };
+                    if !f(args) {
                         return true;
                     }
+                    prev = Some(cur);
                 }
             }
         }
@@ -491,6 +558,30 @@ pub fn generate_geo(op: &str, rng: &mut crate::ops::Rng, budget: u64, f: &mut dy
                                 if !f(vec![fe(t), fe(ph)]) {
                                     return true;
                                 }
+                            }
+                        }
+                    }
+                }
+            }
+            // consecutive lookups a hair apart on opposite sides of a seam (1e-8 .. 1e-6 rad off it), both orders
+            for i in 0..12 {
+                for j in (i + 1)..12 {
+                    if (angle(ax[i], ax[j]) - NEIGHBOUR_ANGLE).abs() > 1e-6 {
+                        continue;
+                    }
+                    let m = normalize(add(ax[i], ax[j]));
+                    let across = normalize(sub(ax[j], ax[i]));
+                    let along = normalize(cross(m, across));
+                    for al in [0.0f64, 2.0, -7.0] {
+                        let a = al.to_radians();
+                        let q = normalize(add(scale(m, a.cos()), scale(along, a.sin())));
+                        for off in [1e-8f64, 1e-7, 1e-6] {
+                            let p1 = normalize(add(scale(q, off.cos()), scale(across, -off.sin())));
+                            let p2 = normalize(add(scale(q, off.cos()), scale(across, off.sin())));
+                            let (t1, h1) = to_theta_phi(p1);
+                            let (t2, h2) = to_theta_phi(p2);
+                            if !f(vec![fe(t1), fe(h1), fe(t2), fe(h2)]) || !f(vec![fe(t2), fe(h2), fe(t1), fe(h1)]) {
+                                return true;
                             }
                         }
                     }
